@@ -148,6 +148,8 @@ def members():
     m["outcome_close"] = Builtin("outcome_close", s_close)
     m["repo"] = Builtin("repo", s_repo)
     m["new_object"] = Builtin("new_object", s_new_object)
+    m["exact"] = Builtin("exact", lambda E, a, k: a[0])
+    m["frac"] = Builtin("frac", lambda E, a, k: BM.binop(E, "/", E.force(a[0]), E.force(a[1])))
     m["pi_const"] = Builtin("pi_const", lambda E, a, k: BM.pi_value(E))
     m["abstract_int"] = Builtin("abstract_int", s_abstract_int)
     m["AssumptionFailed"] = None
